@@ -2,8 +2,13 @@ package main
 
 import (
 	"fmt"
+	"io"
+	"log"
 	"math"
+	"os"
 	"sort"
+	"strings"
+	"sync/atomic"
 	"time"
 
 	prom "github.com/prometheus/client_golang/prometheus"
@@ -317,7 +322,7 @@ func c17Jobs(tier string) []*SeqJob {
 		j.Replay = func(o []string) (string, string) { c, d, _, _ := exec(tt)(opIndex(alphabet, o)); return c, d }
 		jobs = append(jobs, j)
 	}
-	jobs = append(jobs, c17ConflictJob(tier), c17PreregJob(tier))
+	jobs = append(jobs, c17ConflictJob(tier), c17PreregJob(tier), c17ConfigConflicts)
 	return jobs
 }
 
@@ -330,6 +335,13 @@ func histLabels(alphabet []string, h []int) []string {
 }
 
 type cbPanic struct{ err error }
+
+// c17Via: how the conflict job builds its reporter ("" = NewReporter(Options), "cfg:<onError mode>" =
+// Configuration.NewReporter); c17Handlers numbers the handler paths (the default mux refuses a path twice).
+var (
+	c17Via      string
+	c17Handlers int64
+)
 
 // c17ConflictJob: every sequence of first uses that reuse a name across kinds or tag keys.
 func c17ConflictJob(tier string) *SeqJob {
@@ -362,7 +374,23 @@ func c17ConflictJob(tier string) *SeqJob {
 				panic(cbPanic{e})
 			}
 		}
-		rep := tprom.NewReporter(opts)
+		var rep tprom.Reporter
+		if c17Via == "" {
+			rep = tprom.NewReporter(opts)
+		} else {
+			// the other public way to a reporter: Configuration.NewReporter, with the textual onError mode of the
+			// configuration AND the callback of ConfigurationOptions (the callback is "the configured error callback")
+			cfg := tprom.Configuration{OnError: strings.TrimPrefix(c17Via, "cfg:"), HandlerPath: fmt.Sprintf("/verif-c17-%d", atomic.AddInt64(&c17Handlers, 1))}
+			if tt == tprom.SummaryTimerType {
+				cfg.TimerType = "summary"
+			} else {
+				cfg.TimerType = "histogram"
+			}
+			var err error
+			if rep, err = cfg.NewReporter(tprom.ConfigurationOptions{Registry: reg, OnError: opts.OnRegisterError}); err != nil {
+				return "configuration-refused", err.Error(), 0
+			}
+		}
 		so := tprom.DefaultSanitizerOpts
 		root, _ := tally.VerifNewRootScope(tally.ScopeOptions{CachedReporter: rep, Separator: tprom.DefaultSeparator, SanitizeOptions: &so, OmitCardinalityMetrics: true}, 0, 1)
 		for i, op := range hist {
@@ -584,6 +612,83 @@ func c17ConflictJob(tier string) *SeqJob {
 		fmt.Sscan(ops[1], &pan)
 		return guard(func() (string, string) {
 			c, d, _ := run(tprom.TimerType(tt), pan, opIndex(alphabet, ops[2:]))
+			return c, d
+		})
+	}
+	c17ConfigConflicts = c17ThroughConfiguration(alphabet, len(uses), tierInt(tier, 2, 3), run)
+	return j
+}
+
+var c17ConfigConflicts *SeqJob
+
+// c17ThroughConfiguration: the conflict histories with the reporter built by Configuration.NewReporter, for every
+// textual onError mode next to a callback in the options. What the modes print is discarded.
+func c17ThroughConfiguration(alphabet []string, nuses, depth int, run func(tt tprom.TimerType, panicking bool, hist []int) (string, string, int)) *SeqJob {
+	modes := []string{"cfg:", "cfg:none", "cfg:log", "cfg:stderr", "cfg:something-else"}
+	quiet := func(f func()) {
+		saved := os.Stderr
+		log.SetOutput(io.Discard)
+		defer log.SetOutput(saved)
+		if null, err := os.OpenFile(os.DevNull, os.O_WRONLY, 0); err == nil {
+			os.Stderr = null
+			defer func() { os.Stderr = saved; null.Close() }()
+		}
+		f()
+	}
+	one := func(mode string, tt tprom.TimerType, pan bool, hist []int) (cl, det string, steps int) {
+		c17Via = mode
+		defer func() { c17Via = "" }()
+		quiet(func() { cl, det, steps = run(tt, pan, hist) })
+		if cl != "" {
+			det = "[reporter from Configuration{OnError: " + strings.TrimPrefix(mode, "cfg:") + "}.NewReporter(ConfigurationOptions{OnError: callback})] " + det
+		}
+		return
+	}
+	j := &SeqJob{Property: "C17", Name: "registration-conflicts-reporter-from-Configuration", Shards: 4, Controlled: true}
+	j.Run = func(ctx *SeqCtx) {
+		ctx.Alphabet(alphabet...)
+		n := 0
+		enumSeqs(nuses, depth, func(seq []int) bool {
+			n++
+			if len(seq) == 0 || !ctx.Mine(n) {
+				return true
+			}
+			if ctx.Expired() {
+				return false
+			}
+			for _, mode := range modes {
+				for _, tt := range []tprom.TimerType{tprom.SummaryTimerType, tprom.HistogramTimerType} {
+					for _, pan := range []bool{false, true} {
+						sq := append([]int{}, seq...)
+						steps := 0
+						mode, tt, pan := mode, tt, pan
+						cl, det := guard(func() (string, string) { c, d, s := one(mode, tt, pan, sq); steps = s; return c, d })
+						ops := []string{mode, fmt.Sprint(int(tt)), fmt.Sprint(pan)}
+						ops = append(ops, histLabels(alphabet, sq)...)
+						ctx.Case(steps, len(sq) > 1, func() string { return fmt.Sprint(ops) })
+						ctx.State(fmt.Sprint(ops))
+						if cl != "" {
+							ctx.Fail(cl, det, ops)
+							if ctx.viol != nil {
+								return false
+							}
+						}
+					}
+				}
+			}
+			return true
+		})
+		if !ctx.st.TimedOut && ctx.viol == nil {
+			ctx.DepthDone(depth)
+		}
+	}
+	j.Replay = func(ops []string) (string, string) {
+		var tt int
+		var pan bool
+		fmt.Sscan(ops[1], &tt)
+		fmt.Sscan(ops[2], &pan)
+		return guard(func() (string, string) {
+			c, d, _ := one(ops[0], tprom.TimerType(tt), pan, opIndex(alphabet, ops[3:]))
 			return c, d
 		})
 	}
